@@ -83,7 +83,12 @@ func Sources(set *ymodel.Set, order []int) []ymodel.Source {
 		// with it comes the submodule that only the older revision includes: before it or after it
 		os := set.OlderSubText()
 		if set.OlderFirst {
-			return append([]ymodel.Source{*o, *os}, srcs...)
+			srcs = append([]ymodel.Source{*o, *os}, srcs...)
+			if u := set.OlderUserText(); u != nil {
+				// a module that imports both revisions and augments the older one
+				srcs = append(srcs, *u)
+			}
+			return srcs
 		}
 		return append(srcs, *os, *o)
 	}
